@@ -147,8 +147,14 @@ claimed["C06"] = (
     "an item lands exactly once on each visited cell of that storage and on no other cell, storages that no member owns "
     "are not changed at all, a drain removes exactly the visited components; a join with registered members is never "
     "stuck (no unchecked access to an absent slot) and adds no member to any mask - so the never-stuck and purge "
-    "invariants of C04/C05/C08 cover histories with joins. Partial: hibitset's layered iteration is modelled as ascending "
-    "set iteration (exercised by the tie with boundary-straddling masks).",
+    "invariants of C04/C05/C08 cover histories with joins. The masks themselves: a model of the four-layer bit set "
+    "(Bits/Hibit.v: BitSet add / remove / contains, the layer-walking BitIter, the and / or / not / xor combinators) with "
+    "theorems that any sequence of add / remove keeps the layers consistent and in step with the plain finite set of the "
+    "join model, that iterating a set or any combination of sets terminates having yielded exactly the members of the "
+    "combination in strictly ascending order, and that this is the very list (NS.elements) the join model enumerates - "
+    "for all indices below 2^24, so also across the 64 / 4096 / 262144 boundaries; that model is tied to the real hibitset "
+    "types by its own correspondence (layers word for word, membership, iteration). Partial: the bit-set layer is a "
+    "hand-written model of a crate outside /repo (words as ascending lists of bit positions; AtomicBitSet not modelled).",
     "5.C06")
 claimed["C07"] = (
     "Theorems: in the model the parallel join is the sequential join - same items, same final storages - for every member "
@@ -161,9 +167,13 @@ claimed["C07"] = (
     "to which the real join is proved to refine): however the index space is split and in whatever order the pieces are "
     "processed (any permutation of the keys), the storages end up cell for cell the same, every index is delivered "
     "exactly once and every storage member hands out the same component for each index; the visit of one index touches "
-    "no cell of another index (so no component is handed to two workers). Partial: workers are modelled as an arbitrary "
-    "sequential order of whole visits; hibitset's BitProducer, rayon's bridge and truly simultaneous execution are "
-    "outside the model and sampled by the correspondence.", "5.C07")
+    "no cell of another index (so no component is handed to two workers). The producer par_join hands to rayon is "
+    "modelled too (Bits/Hibit.v: BitProducer::split with the depth par_join asks for, on the four-layer mask): one split "
+    "loses and repeats nothing, and for every tree of splits, every mask combination and every content, each leaf's loop "
+    "terminates and the leaves' outputs one after the other are the sequential iteration - each member comes out of "
+    "exactly one leaf, once; the real BitProducer is run through explicit split trees against that model (leaves compared "
+    "one by one). Partial: workers are modelled as an arbitrary sequential order of whole visits; which tree rayon picks "
+    "and truly simultaneous execution are outside the model and sampled by the correspondence.", "5.C07")
 claimed["C13"] = (
     "Theorems: a restricted view is a join member exactly where the storage is; reading through an item is the guarded "
     "read of the item's own index (the primitive a direct join uses); item types without get_other report no lookups; "
